@@ -9,7 +9,8 @@
      t_dlog                    correlation id passed to makeRequest, per handle (dlog_is_make_log)
      CInv                      the invariant every reachable state satisfies (C06_reachable) *)
 From AV Require Import Base.Util Model.Framing Model.BrokerClient
-  Proofs.FramingFacts Proofs.FramingBootstrap Proofs.BrokerClientTbl Proofs.BrokerClientInv Proofs.BrokerClientC06.
+  Proofs.FramingFacts Proofs.FramingExtra Proofs.FramingBootstrap Proofs.BrokerClientTbl Proofs.BrokerClientInv
+  Proofs.BrokerClientC06 Proofs.BrokerClientChunk.
 
 (* ------------------------------------------------------------------ framing *)
 
@@ -39,7 +40,7 @@ Theorem C06_chunking_invariance : forall ok chunks fs r,
   parse ok (concat chunks) = (fs, RxMore r) ->
   concat (map fst (fst (rx_run ok [] chunks))) = fs /\ snd (rx_run ok [] chunks) = r
   /\ Forall (fun x => exists rest, snd x = RxMore rest) (fst (rx_run ok [] chunks)).
-Proof. intros ok chunks fs r H. apply (chunk_invariance ok chunks [] fs r); [reflexivity | exact H]. Qed.
+Proof. exact chunking_invariance0. Qed.
 Print Assumptions C06_chunking_invariance.
 
 (* A length prefix above 2^31-1, wherever the chunk boundaries fall and whatever follows it: the frames before it are
@@ -67,18 +68,12 @@ Theorem C06_length_limit_strict_refuted : exists frames len tail chunks,
   /\ concat chunks = concat (map encode_frame frames) ++ enc32 len ++ tail
   /\ exists first later, fst (rx_run ok4 [] chunks) = first :: later
        /\ snd first = RxLimit len /\ exists r, In r later /\ fst r <> [].
-Proof.
-  exists [[0; 0; 0; 2]], 2147483648, [9], [[0; 0; 0; 4; 0; 0; 0; 2; 128; 0; 0; 0]; [9]].
-  split; [repeat constructor; vm_compute; discriminate|].
-  split; [vm_compute; split; reflexivity|]. split; [reflexivity|].
-  eexists. eexists. split; [vm_compute; reflexivity|]. split; [reflexivity|].
-  eexists. split; [left; reflexivity|]. discriminate.
-Qed.
+Proof. exact length_limit_strict_refuted. Qed.
 Print Assumptions C06_length_limit_strict_refuted.
 
 (* the loop never runs out of the fuel the model gives it *)
 Theorem C06_receiver_total : forall ok buf chunk fs, data_received ok buf chunk <> (fs, RxFuel).
-Proof. intros ok buf chunk fs. rewrite data_received_parse. apply parse_no_fuel. Qed.
+Proof. exact receiver_total. Qed.
 Print Assumptions C06_receiver_total.
 
 (* ------------------------------------------------------------------ the broker client *)
@@ -156,6 +151,68 @@ Theorem C06_data_untouched : forall s chunk r, CInv s -> s_proto s = true -> In 
 Proof. exact data_untouched. Qed.
 Print Assumptions C06_data_untouched.
 
+(* a success value is literally one of the packets the receiver handed over in that very call, and the request it
+   completes is in the table, not cancelled, expects a reply and was written on the connection that is up *)
+Theorem C06_success_from_received_frame : forall s chunk h fr, CInv s ->
+  In (ODef h (Succ fr)) (snd (step s (EData chunk))) ->
+  s_proto s = true
+  /\ In fr (fst (data_received ok4 (s_rxbuf s) chunk))
+  /\ exists r, In r (t_reqs (s_t s)) /\ r_h r = h /\ r_cancelled r = false /\ r_sent r = true /\ r_expect r = true
+               /\ corr_id fr = Some (r_id r).
+Proof. exact success_from_received_frame. Qed.
+Print Assumptions C06_success_from_received_frame.
+
+(* ------------------------------------------------------------------ framing composed with the client *)
+
+(* Chunking at the level of the client.  A connected client whose receive buffer holds no complete frame (true of a
+   fresh connection and preserved by every call that ends normally: C06_rxbuf_stays_irreducible) is given the same
+   bytes in ANY chunking (splits inside the prefix, inside the id, several frames per chunk, empty chunks): the final
+   state and the outputs, in order, are those of calling handleResponse once per frame of the stream - a function of
+   the byte stream alone. *)
+Theorem C06_client_chunking : forall chunks s fs r, s_proto s = true -> parse ok4 (s_rxbuf s) = ([], RxMore (s_rxbuf s)) ->
+  parse ok4 (s_rxbuf s ++ concat chunks) = (fs, RxMore r) ->
+  run s (map EData chunks) = after_frames s fs r.
+Proof. exact client_chunking. Qed.
+Print Assumptions C06_client_chunking.
+
+Theorem C06_client_chunking_two : forall s chunks1 chunks2 fs r, s_proto s = true ->
+  parse ok4 (s_rxbuf s) = ([], RxMore (s_rxbuf s)) ->
+  concat chunks1 = concat chunks2 -> parse ok4 (s_rxbuf s ++ concat chunks1) = (fs, RxMore r) ->
+  run s (map EData chunks1) = run s (map EData chunks2).
+Proof. exact client_chunking_two. Qed.
+Print Assumptions C06_client_chunking_two.
+
+Theorem C06_rxbuf_stays_irreducible : forall s c fs r, parse ok4 (s_rxbuf s ++ c) = (fs, RxMore r) ->
+  parse ok4 (s_rxbuf (fst (data_in s c))) = ([], RxMore (s_rxbuf (fst (data_in s c)))).
+Proof. exact data_in_irreducible. Qed.
+Print Assumptions C06_rxbuf_stays_irreducible.
+
+(* No crosstalk as a refinement.  Abstract the request table to a partial map  id |-> (handle, tombstone?)  ([abs]).
+   The abstract effect of one response frame ([spec_frame]) reads and removes ONLY the binding of the id the frame
+   carries, and fires the Deferred bound to it iff that binding is not a tombstone.  handleResponse refines it ... *)
+Theorem C06_frame_refines_spec : forall t f, TInv t ->
+  amap_eq (abs (fst (handle_response t f))) (fst (spec_frame (abs t) f))
+  /\ snd (handle_response t f) = snd (spec_frame (abs t) f).
+Proof. exact frame_refines. Qed.
+Print Assumptions C06_frame_refines_spec.
+
+(* ... and so does the whole connected client on bytes in any chunking: table, outputs and residue are the fold of
+   the one-frame specification over the frames of the stream. *)
+Theorem C06_no_crosstalk_refinement : forall s chunks fs r, CInv s -> s_proto s = true ->
+  parse ok4 (s_rxbuf s) = ([], RxMore (s_rxbuf s)) ->
+  parse ok4 (s_rxbuf s ++ concat chunks) = (fs, RxMore r) ->
+  amap_eq (abs (s_t (fst (run s (map EData chunks))))) (fst (spec_frames (abs (s_t s)) fs))
+  /\ snd (run s (map EData chunks)) = snd (spec_frames (abs (s_t s)) fs)
+  /\ s_rxbuf (fst (run s (map EData chunks))) = r.
+Proof. exact data_refines. Qed.
+Print Assumptions C06_no_crosstalk_refinement.
+
+(* in the specification an id that no frame carries keeps its binding *)
+Theorem C06_spec_other_ids_untouched : forall fs m x, (forall f, In f fs -> corr_id f <> Some x) ->
+  fst (spec_frames m fs) x = m x.
+Proof. exact spec_frames_other. Qed.
+Print Assumptions C06_spec_other_ids_untouched.
+
 (* ------------------------------------------------------------------ the bootstrap protocol, as observed *)
 
 (* For every event list (requests, data in any chunking, connection loss): no request Deferred fires twice; a success
@@ -204,6 +261,19 @@ Example no_crosstalk_nonvacuous :
   /\ map (fun r => (r_id r, r_cancelled r)) (t_reqs (s_t s)) = [(1, true); (2, false)]
   /\ snd (step s (EFrame [0;0;0;1;70])) = [] /\ snd (step s (EFrame [0;0;0;9])) = []
   /\ snd (step s (EFrame [0;0;0;2])) = [ODef 1 (Succ [0;0;0;2])].
+Proof. vm_compute. repeat split. Qed.
+
+(* two requests, a tombstone and a live one; the stream = late reply to the tombstone, unknown id, own reply, and 3
+   bytes of a next frame, cut byte-wise in one run and 2+rest in the other: same state, same outputs, residue kept *)
+Example client_chunking_nonvacuous :
+  let s := fst (run init [EMake 1 true; EMake 2 true; EConnOk; ECancel 0]) in
+  let stream := encode_frame [0;0;0;1;70] ++ encode_frame [0;0;0;9] ++ encode_frame [0;0;0;2] ++ [0;0;0] in
+  s_proto s = true /\ parse ok4 (s_rxbuf s) = ([], RxMore (s_rxbuf s))
+  /\ parse ok4 (s_rxbuf s ++ stream) = ([[0;0;0;1;70]; [0;0;0;9]; [0;0;0;2]], RxMore [0;0;0])
+  /\ snd (run s (map EData (map (fun b => [b]) stream))) = [ODef 1 (Succ [0;0;0;2])]
+  /\ run s (map EData (map (fun b => [b]) stream)) = run s (map EData [take 2 stream; drop 2 stream])
+  /\ snd (spec_frames (abs (s_t s)) [[0;0;0;1;70]; [0;0;0;9]; [0;0;0;2]]) = [ODef 1 (Succ [0;0;0;2])]
+  /\ abs (s_t s) 1 = Some (0%nat, true) /\ abs (s_t s) 2 = Some (1%nat, false).
 Proof. vm_compute. repeat split. Qed.
 
 Example bootstrap_nonvacuous :
